@@ -231,8 +231,42 @@ func runC17(c *Ctx) {
 			c.bad(c.fnKey(f)+":shape", f.Pos(), fmt.Sprintf("%d Load / %d Mount / %d Store (1/1/1 on the pinned tree)", len(loads), len(mnt), len(sto)))
 		} else {
 			nf := boolEdges(f, resultN(loads[0], 1), false)
-			okp, _ := mustPass(f, mnt[0], newCuts().addEdges(nf))
-			c.verdict(c.fnKey(f)+":no-double-mount", mnt[0].Pos(), okp && len(nf) > 0, "Mount only on the not-found edge", "a mountpoint that is already served gets mounted again")
+			// or: the mount table shows that nothing is mounted there any more (the known entry is stale)
+			gone := condEdges(f, func(cond ssa.Value) int {
+				b, ok := cond.(*ssa.BinOp)
+				if !ok {
+					return 0
+				}
+				lc, ok := stripConv(b.X).(*ssa.Call)
+				if !ok {
+					return 0
+				}
+				bi, ok := lc.Call.Value.(*ssa.Builtin)
+				if !ok || bi.Name() != "len" {
+					return 0
+				}
+				fromTable := false
+				for _, v := range append([]ssa.Value{lc.Call.Args[0]}, reachingVals(lc.Call.Args[0])...) {
+					if ex, ok := stripConv(v).(*ssa.Extract); ok {
+						if gc, ok := ex.Tuple.(*ssa.Call); ok && strings.Contains(calleeID(gc), "mountinfo.GetMounts") {
+							fromTable = true
+						}
+					}
+				}
+				n, isC := constInt(b.Y)
+				if !fromTable || !isC || n != 0 {
+					return 0
+				}
+				switch b.Op {
+				case token.GTR, token.NEQ:
+					return -1
+				case token.EQL, token.LEQ:
+					return 1
+				}
+				return 0
+			})
+			okp, _ := mustPass(f, mnt[0], newCuts().addEdges(nf).addEdges(gone))
+			c.verdict(c.fnKey(f)+":no-double-mount", mnt[0].Pos(), okp && len(nf) > 0, "Mount only on the not-found edge, or after the mount table showed the known mount gone", "a mountpoint that is already served gets mounted again")
 			okp2, _ := mustPass(f, sto[0], newCuts().addEdges(successEdges(f, mnt[0])))
 			sameFs := sameValue(stripConv(sto[0].Common().Args[2]), mnt[0].Common().Value) || (func() bool {
 				_, a := isFieldLoad(sto[0].Common().Args[2], srv, "curFs")
@@ -246,7 +280,7 @@ func runC17(c *Ctx) {
 			okp3, _ := mustPass(f, mnt[0], newCuts().addEdges(nn))
 			c.verdict(c.fnKey(f)+":curFs-non-nil", mnt[0].Pos(), okp3 && len(nn) > 0, "current filesystem used only when set", "the current filesystem is dereferenced although no Init succeeded yet (Init marks the manager ready even when it failed)")
 			// same mountpoint key for Load/Mount/Store
-			c.verdict(c.fnKey(f)+":same-key", f.Pos(), isParam(loads[0].Common().Args[1]) && isParam(mnt[0].Common().Args[1]) && isParam(sto[0].Common().Args[1]), "one mountpoint key", "different keys used for lookup, mount and record")
+			c.verdict(c.fnKey(f)+":same-key", f.Pos(), isParamish(loads[0].Common().Args[1]) && isParamish(mnt[0].Common().Args[1]) && isParamish(sto[0].Common().Args[1]), "one mountpoint key", "different keys used for lookup, mount and record")
 		}
 	}
 
@@ -362,6 +396,7 @@ func runC17(c *Ctx) {
 
 	clauseClientPropagatesRPCErrors(c, "C17.h")
 	clauseFreshDecodeTarget(c, "C17.i")
+	clauseKnownMountIsLive(c, "C17.j")
 
 	// ---------- C17.g ----------
 	c.clause("C17.g", "T1", "unmounting an unknown mountpoint succeeds only when the mount table shows nothing mounted there", 1)
